@@ -22,7 +22,7 @@ ASSUMPTIONS = ["regions with a pinch point are invalid for shapely; the code doc
 
 
 # ------------------------------------------------------------------ generators
-def region_strategy(kinds=("convex", "star", "L", "U", "pinch", "box", "comb")):
+def region_strategy(kinds=("convex", "star", "L", "U", "pinch", "box", "comb", "dent")):
     from hypothesis import strategies as st
 
     @st.composite
@@ -70,6 +70,16 @@ def region_strategy(kinds=("convex", "star", "L", "U", "pinch", "box", "comb")):
                     poly += [(x, d), (x + gap, d)]
                     x += gap
             poly += [(x, h), (0, h)]
+        elif kind == "dent":
+            # a box one of whose long edges is not quite straight: a vertex a fraction of a pixel inside (hand-drawn or
+            # re-sampled outlines)
+            w, h = draw(st.integers(150, 700)), draw(st.integers(80, 400))
+            a = draw(st.integers(w // 5, 4 * w // 5))
+            dpx = draw(st.sampled_from([0.2, 0.3, 0.45, 0.7]))
+            if draw(st.booleans()):
+                poly = [(0, 0), (a, dpx), (w, 0), (w, h), (0, h)]
+            else:
+                poly = [(0, 0), (w, 0), (w, h), (a, h - dpx), (0, h)]
         elif kind == "pinch":
             w, h = draw(st.integers(200, 500)), draw(st.integers(200, 400))
             poly = [(0, 0), (w, 0), (w / 2, h / 2), (w, h), (0, h), (w / 2, h / 2)]
@@ -77,7 +87,7 @@ def region_strategy(kinds=("convex", "star", "L", "U", "pinch", "box", "comb")):
         else:
             w, h = draw(st.integers(100, 800)), draw(st.integers(60, 500))
             poly = [(0, 0), (w, 0), (w, h), (0, h)]
-        if integer:
+        if integer and kind != "dent":
             poly = [(float(round(x)) + ox, float(round(y)) + oy) for x, y in poly]
             if kind in ("convex", "star"):
                 # rounding may create duplicates; keep them simple by re-hulling convex ones only
@@ -261,6 +271,13 @@ def check_placed_line(ctx, line, detected, ref, tol, desc, check_piece=True):
         ctx.check(all(arcs[i + 1] >= arcs[i] - tol for i in range(len(arcs) - 1)), "placed_baseline_direction_reversed",
                   lambda: "line %s arcs %r; " % (line.id, arcs) + desc())
         hull = geom.convex_hull([(float(x), float(y)) for x, y in detected["outline"]])
+    ring = [(float(q[0]), float(q[1])) for q in np.asarray(line.polygon)]
+    for (x1_, y1_), (x2_, y2_) in zip(ring, ring[1:] + ring[:1]):
+        # the outline is clipped to the region: not only its vertices, every point of its edges lies inside
+        for t_ in (0.125, 0.25, 0.375, 0.5, 0.625, 0.75, 0.875):
+            q = (x1_ + t_ * (x2_ - x1_), y1_ + t_ * (y2_ - y1_))
+            ctx.check(geom.inside_tol(q, ref, tol * 10 + 1e-3), "placed_outline_outside_region",
+                      lambda: "line %s: point %r of the outline edge %r-%r; " % (line.id, q, (x1_, y1_), (x2_, y2_)) + desc())
     for p in np.asarray(line.polygon):
         p = (float(p[0]), float(p[1]))
         ctx.check(geom.inside_tol(p, ref, tol * 10 + 1e-3), "placed_outline_outside_region", lambda: "line %s outline vertex %r; " % (line.id, p) + desc())
